@@ -467,7 +467,6 @@ def judgeGroups (gp : GroupPending) : Verdict :=
   match gp.src with
   | none => { ok := true }
   | some f =>
-    if hasDupEnum f then { ok := true } else     -- recorded finding KF-C17-enum-dup: not judged
     match gp.keys.mapM f.find? with
     | none => { ok := false, kind := "errdiff", detail := "spec rejects unknown grouping column, got frames" }
     | some keys =>
@@ -579,8 +578,6 @@ def histLine (s : HState) (toks : Array String) : HState × List Msg :=
         let s' := (s.setFrame p.fid stored)
         let s' := { s' with pending := none }
         (s', [if v.ok then { cls := "OK", op := p.op, kind := "", detail := "" }
-              else if p.srcDup && rankOps.contains p.op && v.kind != "panic" then
-                { cls := "KNOWN-FINDING", op := p.op, kind := "KF-C17-enum-dup", detail := v.detail }
               else if v.known then { cls := "KNOWN-FINDING", op := p.op, kind := v.kind, detail := v.detail }
               else if v.mirror then { cls := "MIRROR-MISMATCH", op := p.op, kind := v.kind, detail := v.detail }
               else { cls := "SPEC-MISMATCH", op := p.op, kind := v.kind, detail := v.detail }])
@@ -689,6 +686,20 @@ def histLine (s : HState) (toks : Array String) : HState × List Msg :=
       else if acc < total && res != "1" then
         (s, [{ cls := "SPEC-MISMATCH", op := "wfault", kind := "swallowed", detail := s!"To{kind}: the writer accepted only {acc} of {total} bytes (failing from byte {k}) but success was reported" }])
       else (s, [{ cls := "OK", op := "wfault", kind := "", detail := "" }])
+  | some "RF" =>
+    match runP (do
+        let _src ← nat
+        let kind ← next
+        let total ← nat
+        let k ← nat
+        let res ← next
+        return (kind, total, k, res)) toks 1 with
+    | .error e => failL "RF" e
+    | .ok (kind, total, k, res) =>
+      if res == "P" then (s, [{ cls := "SPEC-MISMATCH", op := "rfault", kind := "panic", detail := s!"Read{kind} panicked when the reader failed after {k} of {total} bytes" }])
+      else if k < total && res != "1" then
+        (s, [{ cls := "SPEC-MISMATCH", op := "rfault", kind := "swallowed", detail := s!"Read{kind}: the reader failed after {k} of {total} bytes but an error-free frame was returned" }])
+      else (s, [{ cls := "OK", op := "rfault", kind := "", detail := "" }])
   | some "CB" =>
     match runP (do
         let _fid ← nat
